@@ -179,7 +179,9 @@ private theorem setParams_ok_threshold (s s' : State) (pc ct : Nat) (vs : List V
   · cases h
   · split at h
     · cases h
-    · simp only at h
+    · split at h
+      · cases h
+      simp only at h
       split at h
       · cases h
       · rename_i hc
